@@ -234,16 +234,41 @@ def _run_chunk_here(chunk, st):
 BLOCKS = (96, 1024, 4096, 8192, 65536, 131072, 1048576)
 
 
-LINE_COUNTS = (255, 256, 257, 258, 259, 1023, 1024, 1025, 4096, 4097,
-               65535, 65536, 65537)
+LINE_COUNTS = (255, 256, 257, 258, 259, 999, 1000, 1001, 1023, 1024, 1025,
+               4096, 4097, 9999, 10000, 10001, 20000, 30000, 32768, 50000,
+               65535, 65536, 65537, 100000, 131072)
 
 
 def boundary_chunks(tier, seed):
     return [('block', b) for b in BLOCKS] + [('lines', n)
-                                             for n in LINE_COUNTS]
+                                             for n in LINE_COUNTS] + \
+        [('lines', 'full-range')]
+
+
+def run_full_range_chunk(st):
+    """Binary payloads in which every byte value occurs."""
+    evals = 0
+    every = bytes(range(256))
+
+    for nl in NEWLINES + EBCDIC_NEWLINES:
+        for data in (every, every + nl, every[::-1] + nl + every,
+                     (every + nl) * 3, nl + every * 2,
+                     every[:128] + nl + every[128:] + nl):
+            res = judge(data, nl)
+            evals += 1
+
+            if res is not None:
+                st.violation(res[0], res[1][:300],
+                             {'full_range': data, 'newline': nl})
+
+    st.bulk(evals, evals, sample={'full_range': '256 byte values',
+                                  'payloads': 6})
 
 
 def run_line_count_chunk(n, st):
+    if n == 'full-range':
+        return run_full_range_chunk(st)
+
     evals = 0
 
     for nl in NEWLINES + EBCDIC_NEWLINES:
@@ -309,6 +334,9 @@ def run_boundary_chunk(chunk, st):
 
 
 def run_boundary_case(case, st):
+    if 'full_range' in case:
+        return run_case([case['full_range'], case['newline']], st)
+
     if 'lines' in case:
         data = (case['unit'] + case['newline']) * case['lines'] + case['tail']
         return run_case([data, case['newline']], st)
